@@ -37,7 +37,10 @@ CONSTANTS
     DepthSeq,   \* sequence of the depth arguments issued by queries (<= 0 means "default")
     WalkSeqs,   \* relation paths given to VTraverse (sequences over Rels)
     AlgRels,    \* relation subsets used by the algorithm check
-    AlgTimes    \* "all": the algorithm check queries every time of QTimes(g); "now": only T = 0
+    AlgTimes,   \* "all": the algorithm check queries every time of QTimes(g); "now": only T = 0
+    EmitTimes   \* "all": answers are emitted for every time of QTimes(g); "ends": only now, before
+                \*        everything and after the last event (the times whose answers do not depend on
+                \*        the order of the events -- the binding replays such graphs under several orders)
 
 Nodes == 1..N
 Rels  == 1..NR
@@ -157,6 +160,7 @@ DTime(x, g) ==
 LastTime(g) == 1 + Cardinality(g) + Cardinality(DeadOf(g))
 Versions(g) == {[s |-> Src(x), t |-> Dst(x), r |-> Rel(x), c |-> CTime(x, g), d |-> DTime(x, g)] : x \in g}
 QTimes(g)   == 0..LastTime(g)      \* query times: now, before everything, at every event boundary
+EmitQTimes(g) == IF EmitTimes = "all" THEN QTimes(g) ELSE {0, 1, LastTime(g)}
 
 InBound(g) == /\ g \subseteq Codes
               /\ Cardinality(g) <= MaxEdges
@@ -259,7 +263,7 @@ RecordOf(gg, V) ==
       depths |-> DepthSeq,
       pd     |-> [i \in 1..ND |-> EffPathDepth(DepthSeq[i])],
       wcap   |-> WalkCap,
-      cases  |-> UNION {CasesOf(V, x[1], x[2]) : x \in QTimes(gg) \X SUBSET Rels},
+      cases  |-> UNION {CasesOf(V, x[1], x[2]) : x \in EmitQTimes(gg) \X SUBSET Rels},
       walks  |-> UNION {UNION {IF W = {} THEN {} ELSE {<<x[1], WalkStr(x[2]), {WalkStr(w) : w \in W}>>} :
                                   W \in {Walks(V, x[1], x[2])}} : x \in Nodes \X WalkSeqs} ]
 Record(gg) == CHOOSE r \in {RecordOf(gg, V) : V \in {Versions(gg)}} : TRUE
